@@ -191,6 +191,7 @@ fn eval_in_child(req: &Request, hash_stream: u64) -> RefResult {
             polls: vec![],
             poll_steps: vec![],
             unstable: false,
+            budget_sensitive: false,
         },
     }
 }
@@ -205,8 +206,21 @@ fn eval_fresh(req: &Request, keyb: &[u8]) -> RefResult {
     let b = eval_in_child(req, 0xA3A3_0002_7777);
     let mut r = a.clone();
     if a.open != b.open || a.polls != b.polls {
-        r.unstable = true;
-        r.open = format!("{} <<UNSTABLE vs>> {}", a.open, b.open);
+        // a difference that consists of one side running into the step budget is not
+        // instability of the answer: a library may legitimately do a varying amount of work
+        // (randomised self-checks, caches); such a request is marked budget-sensitive and a
+        // `Diverged` on either side is then never held against the tree
+        let cut = |x: &RefResult| x.open == "Diverged" || x.polls.iter().any(|p| p == "Diverged");
+        if cut(&a) != cut(&b) || (cut(&a) && cut(&b)) {
+            r.budget_sensitive = true;
+            if cut(&a) && !cut(&b) {
+                r = b.clone();
+                r.budget_sensitive = true;
+            }
+        } else {
+            r.unstable = true;
+            r.open = format!("{} <<UNSTABLE vs>> {}", a.open, b.open);
+        }
     }
     r
 }
@@ -264,6 +278,7 @@ pub fn forker_main() -> ! {
                 polls: vec![],
                 poll_steps: vec![],
                 unstable: false,
+            budget_sensitive: false,
             }),
         };
         if write_msg(&mut out, &[&ans]).is_err() {
